@@ -218,6 +218,43 @@ def rule_width_sibling(ctx):
     ctx.floor(rid + ".pairs", 3)
 
 
+def rule_unpack_width(ctx):
+    """the narrow path halves the 32-bit token before narrowing it"""
+    rid = "R-UNPACK-WIDTH"
+    ctx.rule(rid, "<i16 as Sealed>::unpack_signed_u32 turns an entropy-decoded u32 token t into (t >> 1) ^ -(t & 1) modulo 2^16.  Bit 16 of "
+                  "the token is bit 15 of the result (tokens above 65535 occur with large leaf offsets although every sample fits 16 "
+                  "bits), so the shift has to happen at 32-bit width: the `>> 1` in that function has a u32 left operand.  Narrowing "
+                  "first drops the bit and the narrow decode differs from the wide one by 32768")
+    md = ctx.prog.crate("jxl_modular")
+    f = md.fns.get("<i16 as jxl_modular::sample::Sealed>::unpack_signed_u32")
+    if f is None:
+        ctx.anchor_missing(rid, "<i16 as jxl_modular::sample::Sealed>::unpack_signed_u32")
+        return
+    ctx.seen(f)
+    shifts = []
+    fams = [f] + [md.fns[c["fn"]] for _, t in f.calls() for c in [callee(t)] if c and c["fn"] in md.fns]
+    for g in fams:
+        for blk in g.blocks:
+            if blk[2]:
+                continue
+            for st in blk[0]:
+                if st[0] == "=" and st[2][0] == "bin" and st[2][1] in ("Shr", "ShrUnchecked"):
+                    o = st[2][2]
+                    ty = g.local_ty(o[1][0]) if o[0] in ("c", "m") and len(o[1]) == 1 else (o[1].get("ty") if o[0] == "k" else None)
+                    shifts.append(ty)
+        for _, t in g.calls():
+            c = callee(t)
+            if c and c["fn"].endswith("unpack_signed") and "jxl_bitstream" in c["fn"]:
+                shifts.append("u32")      # the shared 32-bit implementation
+    if not shifts:
+        ctx.anchor_missing(rid, "the `>> 1` of <i16 as Sealed>::unpack_signed_u32")
+    elif all(t in ("u32", "i32", "u64") for t in shifts):
+        ctx.ok(rid, "shift-at-32-bits", "the token is halved at %s width before it is narrowed" % shifts[0], nontrivial=True, fn=f)
+    else:
+        ctx.bad(rid, "shift-after-narrowing", "the token is narrowed to %s before `>> 1`: bit 16 of a token above 65535 is lost and the narrow "
+                "decode is off by 32768" % [t for t in shifts if t not in ("u32", "i32", "u64")][0], fn=f)
+
+
 def rule_narrowpred(ctx):
     rid = "R-NARROWPRED"
     ctx.rule(rid, "RenderContext::narrow_modular is exactly `!force_wide_buffers && image_header.metadata.modular_16bit_buffers` (complete "
@@ -316,6 +353,7 @@ def main(pid, tier, repo=None):
     rule_buffer_sibling(ctx)
     rule_sample_sibling(ctx)
     rule_width_sibling(ctx)
+    rule_unpack_width(ctx)
     rule_narrow_saturate(ctx)
     ctx.not_decided("sample-for-sample equality of the two decodes; the arithmetic of the i16 SIMD squeeze kernels against the scalar code "
                     "(head/tail handling per width class); that 16-bit intermediates never overflow for depths up to 12 bits")
